@@ -7,6 +7,37 @@ HERE = Path(__file__).resolve().parent.parent
 
 # id: (level, technique, level text, level note)
 CHECKS = {
+ 'C04': ('exploration',
+         'history + executable list-of-ndarrays model; bounded-exhaustive op sequences plus long random histories',
+         'Operation sequences over append / iterappend / truncate / mode change / reopen (plus copy, overwrite re-creation, '
+         'rejected appends in the random part) run on real RaggedArrays from asraggedarray and create_raggedarray starts '
+         'across atoms, 13 value types, both byte orders and the 7 index types; after each step len, narrays, atom, dtype, '
+         'size, every ra[k] incl. both out-of-range neighbours, non-integer indices, iter_arrays on a (start,end,step) grid '
+         'and the stored index type are compared with a list-of-arrays model on the live and on a fresh handle.',
+         'Only valid appends are judged here (failing ones belong to C10); index types large enough for the values length.'),
+ 'C05': ('exploration',
+         'independent structural decoder (no Darr code) evaluated after every step of ragged histories',
+         'After every step of the ragged history workload a decoder that shares no code with Darr reads values/, indices/ and '
+         'the three JSON descriptors and checks the structural invariant (well-formed sub-arrays, (N,)+atom, (n,2) integer '
+         'indices, 0-based contiguous non-decreasing rows ending at N, consistent top-level len/size/atom/numtype/darrobject) '
+         'and that subarray k cut from the raw files equals ra[k]; also after calls that should have been rejected.',
+         'Trusts vlib/decoder.py; orphaned values with n = 0 are an observation, not a violation.'),
+ 'C08': ('exploration',
+         'Readme monitor (regeneration from a fresh handle + independent parse vs independent decode) after every step of Array and ragged histories',
+         'After every step of Array histories (incl. metadata creation/deletion, overwrite re-creation) and ragged histories '
+         '(incl. growth ladders through 5-9 subarrays by append and iterappend, copy) README.txt of the array - and of a '
+         'ragged array and both its sub-arrays - must equal what Darr generates from a freshly opened handle, its '
+         'independently parsed statements must agree with the independent decoder, it must contain every current readcode() '
+         'snippet, and mention metadata.json iff metadata exist.',
+         'Regeneration uses Darr\'s own readcodetxt on a fresh handle (staleness oracle); the independent parse covers format statements only.'),
+ 'C10': ('fault_enumeration',
+         'enumerated fault positions/kinds incl. index overflow and kernel-enforced write failures on either file (forked child); post-failure oracle = raised + open + structural decode + subarrays',
+         'Every failure position for every kind (iterable raises, wrong atom, wrong rank, unconvertible item, index overflow '
+         'at the 127/255/32767 boundary for small index types, RLIMIT_FSIZE write failure on the values file and on the '
+         'indices file at offsets around every item boundary) through append and iterappend; afterwards the call must have '
+         'raised, RaggedArray(path) must open, the independent structural decoder must accept the directory and the '
+         'subarrays must be the original ones followed by those completely appended.',
+         'RLIMIT_FSIZE limits all files; the file meant to fail is made larger than all others incl. the 8 kB README.'),
  'C09': ('fault_enumeration',
          'enumerated fault positions/kinds incl. kernel-enforced write failure (RLIMIT_FSIZE in a forked child); post-failure oracle = raised + fresh open + independent decode + contents',
          'Every failure position 0..n for every failure kind (iterable raises, wrong trailing shape, wrong rank, unconvertible '
